@@ -57,7 +57,7 @@ class Thr(Engine):
     name = 'thr'
     flavour = 'tsan'
     keep_prefix = 10 ** 6          # no delta debugging: schedules are not reproducible op by op
-    env = {'TSAN_OPTIONS': 'exitcode=0:report_signal_unsafe=0:history_size=4', 'VERIF_REFS': refs.REFDIR}
+    env = {'TSAN_OPTIONS': 'exitcode=0:report_signal_unsafe=0:history_size=4:ignore_noninstrumented_modules=1', 'VERIF_REFS': refs.REFDIR}
     timeout = 3000
 
     def refs(self):
@@ -144,7 +144,7 @@ class Thr(Engine):
         for i in range(0, len(fmts), 6):
             yield self.case(f'writers-{i}', [f'wr {f} {self.filt(rng, f)} {rng.randrange(1000)} {rng.choice([1, 3, 7])}'
                                              for f in fmts[i:i + 6]], att)
-        n = 16 if quick else 200
+        n = 16 if quick else 120
         for i in range(n):
             k = rng.choice([2, 3, 4, 6, 8] if quick else [2, 3, 4, 6, 8, 12, 16])
             wls = []
